@@ -145,7 +145,7 @@ def check_all_descriptor_readers(chk):
                    '%s:unlocked-%s' % (name, bad[0][1] if bad else 'field'), bad[0][2] if bad else None)
 
 
-def check_mutex_discipline(chk):
+def check_mutex_discipline(chk, rule='R18.6'):
     """R18.6: the memory mutex serialises grow/size with every other holder - each function of the runtime header that locks or unlocks
     it (found by its calls, in the lock-free and in the mutex-based atomics configuration) is summarised with a shared memory: on every
     path the mutex is released exactly as often as it was taken and never released while not held (releasing a mutex another thread
@@ -204,7 +204,7 @@ def check_mutex_discipline(chk):
                 chk.note('%s@%s is a %s wrapper of the memory mutex' % (name, cfg, 'lock' if nets == {(1,)} else 'unlock'))
                 continue
             n += 1
-            chk.expect(bad is None, 'R18.6', '%s@%s:mutex-balanced' % (name, cfg),
+            chk.expect(bad is None, rule, '%s@%s:mutex-balanced' % (name, cfg),
                        '%s (%s configuration) %s: the same mutex protects memory.grow / memory.size of a shared memory, so a concurrent grow '
                        'is no longer exclusive (duplicate old sizes, lost updates)' % (name, 'mutex-based atomics' if cfg == 'be' else 'default', bad),
                        'runtime/%s@%s:mutex' % (name, cfg))
@@ -250,7 +250,7 @@ def check_mutex_discipline(chk):
             if held != 0 and bad is None:
                 bad = 'returns with the memory mutex %s (path %s)' % ('still held' if held > 0 else 'over-released', p.cond_text()[:100])
         n += 1
-        chk.expect(bad is None, 'R18.6', '%s:mutex-balanced' % label,
+        chk.expect(bad is None, rule, '%s:mutex-balanced' % label,
                    '%s %s: the same mutex protects memory.grow / memory.size of a shared memory, so a concurrent grow is no longer exclusive '
                    '(duplicate old sizes, lost updates)' % (label, bad), 'futex/%s:mutex' % label.split('[')[0])
     chk.require(n >= 20, 'only %d runtime functions take the memory mutex' % n)
